@@ -77,4 +77,9 @@ def judgeAll (lim : Limits) (nEv : Nat) (ctors : List String) (impl : List Strin
 #guard judgeAll { lim0 with rxMustExpire := true } 1 [] ["r ret 0"] != []
 #guard judgeAll { lim0 with rxMustExpire := true } 1 [] ["r err es=2"] == []
 
+/-! ### callbacks that execute no instruction are charged: as many of them as the budget has ticks cannot be followed by a normal return -/
+#guard judgeAll { lim0 with noCodeCallbacks := 2000 } 1 [] ["r ret 0"] != []
+#guard judgeAll { lim0 with noCodeCallbacks := 1999 } 1 [] ["r ret 0"] == []
+#guard judgeAll { lim0 with noCodeCallbacks := 5000 } 1 [] ["r err es=2"] == []
+
 end NV.C04
